@@ -93,16 +93,16 @@ def call(ts, *extra):
     s = R.sched
     proc = s.cur().proc
     run = R.run
-    entry = dict(task=ts["id"], pid=proc.pid, t0=s.now, t1=None, ex=ts.get("ex"))
+    entry = dict(task=ts["id"], pid=proc.pid, t0=s.now, t1=None, ex=ts.get("ex"), exn=ts.get("exn"))
     entry.update(observe(proc))
     if ts.get("probe_env"):
         entry["env_probe"] = {k: proc.env.get(k) for k in ts["probe_env"]}
     run.obs.exec_log.append(entry)
-    run.active_bodies[proc.pid] = (ts.get("ex"), ts["id"])
+    run.active_bodies[proc.pid] = (ts.get("exn"), ts["id"])
     n = sum(1 for pid, (ex, _) in run.active_bodies.items()
-            if ex == ts.get("ex") and R.kernel.procs[pid].alive)
-    if n > run.peak_bodies[ts.get("ex")]:
-        run.peak_bodies[ts.get("ex")] = n
+            if ex == ts.get("exn") and R.kernel.procs[pid].alive)
+    if n > run.peak_bodies[ts.get("exn")]:
+        run.peak_bodies[ts.get("exn")] = n
     try:
         return _body(ts, proc, s, entry)
     finally:
